@@ -1,8 +1,11 @@
 #!/usr/bin/env python3
 """Run every translator against a checkout with a patch applied, writing into a throw-away
 directory: shows which translator obligation a rewrite of the source breaks.
-  try_translators.py <patch.diff>"""
-import os, shutil, subprocess, sys, tempfile, traceback
+  try_translators.py <patch.diff>
+For gen_tables it also prints the sections read semantically (_semantic: section -> why the syntactic
+reader gave up), the sections that could not be read at all (_failed) and which generated files differ
+from the unchanged tree's."""
+import json, os, shutil, subprocess, sys, tempfile, traceback
 VERIF = os.path.dirname(os.path.dirname(os.path.abspath(__file__)))
 sys.path.insert(0, os.path.join(VERIF, "tools"))
 patch = os.path.abspath(sys.argv[1])
@@ -16,8 +19,22 @@ try:
     for name in ("gen_tables", "gen_dispatch", "gen_sinks", "gen_mutation", "gen_quirks", "gen_books"):
         mod = __import__(name)
         try:
-            mod.generate(wt, gen)
+            res = mod.generate(wt, gen)
             print(name, "ok")
+            if name == "gen_tables":
+                # which sections were read from behaviour, which could not be read at all, and
+                # whether the generated files are the unchanged tree's (base generated below)
+                tables = res[0]
+                print("  _semantic:", json.dumps(tables.get("_semantic", {}), ensure_ascii=False))
+                print("  _failed:", json.dumps(tables.get("_failed", {}), ensure_ascii=False))
+                base = tempfile.mkdtemp(prefix="trybase-", dir="/tmp")
+                try:
+                    gen_tables.generate("/repo", base)
+                    diff = [f for f in ("Codepage.v", "ParserConsts.v", "Elements.v", "Yaml.v", "TemplateShapes.v")
+                            if open(os.path.join(base, f), encoding="utf-8").read() != open(os.path.join(gen, f), encoding="utf-8").read()]
+                    print("  generated files differing from the unchanged tree's:", diff or "none")
+                finally:
+                    shutil.rmtree(base, ignore_errors=True)
         except gen_tables.TranslatorError as e:
             print(name, "FAIL-CLOSED:", e)
         except Exception as e:
